@@ -124,9 +124,19 @@ func (g *G) GenRule(p *Profile, id, ver int) *RuleDef {
 // GenRuleSet draws n rules with ids 1..n.
 func (g *G) GenRuleSet(p *Profile) []*RuleDef {
 	n := g.Range(p.MinRules, p.MaxRules)
+	big := false
+	if p.MaxRules >= 4 && g.Pct(3) {
+		// "any number of rules": a few runs use a set well beyond the usual sizes (slice growth steps,
+		// search depth, fan-out); the rules are kept short
+		n = g.PickInt([]int{9, 13, 16, 17, 24, 33, 40})
+		big = true
+	}
 	rs := make([]*RuleDef, n)
 	for i := range rs {
 		rs[i] = g.GenRule(p, i+1, 1)
+		if big && len(rs[i].Secs) > 1 {
+			rs[i].Secs = rs[i].Secs[:1]
+		}
 	}
 	return rs
 }
@@ -210,9 +220,12 @@ func (g *G) GenCall(p *Profile, rules []*RuleDef, idx int) *Call {
 		g.LastNames = append(g.LastNames, c.Names)
 	}
 	if c.Method == MDAG {
-		layers := g.Range(0, 4)
+		layers, maxW := g.Range(0, 4), 4
+		if g.Pct(6) {
+			layers, maxW = g.Range(5, 9), 8 // "any number of layers and widths"
+		}
 		for i := 0; i < layers; i++ {
-			w := g.Range(0, 4)
+			w := g.Range(0, maxW)
 			var layer []string
 			for j := 0; j < w; j++ {
 				if n == 0 || g.Pct(p.UnknownNamePct/2) {
